@@ -18,16 +18,21 @@
 (*   "innermost_frame_line"  the line of the callee's node is reported     *)
 (*   "callee_file"           the callee's file is reported                 *)
 (*   "line_from_other_source" the line is computed in the other file       *)
+(*   "call_node_not_restored" after evaluating a multi-line call's params  *)
+(*                            the bottom frame's node stays on the last    *)
+(*                            param instead of the {call}                  *)
 (* TLC exports every case with its source lines and allowed lines; the     *)
 (* harness renders them with the real code.                                *)
 (***************************************************************************)
-EXTENDS Integers, Sequences, FiniteSets, TLC, Json
+EXTENDS Integers, Sequences, FiniteSets, TLC, Json, SequencesExt
 
 CONSTANT Dev
 
 Wrappers == {"none", "if", "foreach", "switch", "letc", "pc", "log", "msg"}
 Fails == {"print", "ifcond", "forlist", "css", "paramvalue", "letvalue", "switchsubject", "pluralsubject"}
 Depths == 0..3
+\* how the {call} that leads to the failing callee is written (depth > 0)
+CallShapes == {"plain", "vparams", "cparam"}
 
 Open(w) == CASE w = "if" -> "{if true}" [] w = "foreach" -> "{foreach $q in [1]}"
              [] w = "switch" -> "{switch 1}{case 1}" [] w = "letc" -> "{let $w}"
@@ -40,6 +45,11 @@ Close(w) == CASE w = "if" -> "{/if}" [] w = "foreach" -> "{/foreach}"
 
 \* the failing command, one or several lines; the reference $x.y fails when
 \* $x is null (x is supplied as null)
+CallLines(shape) ==
+  CASE shape = "vparams" -> <<"{call lib.d1 data=\"all\"}", "{param p: 1 /}", "{param q: 2 /}", "{/call}">>
+    [] shape = "cparam" -> <<"{call lib.d1 data=\"all\"}", "{param p}", "c", "{/param}", "{/call}">>
+    [] OTHER -> <<"{call lib.d1 data=\"all\" /}">>
+
 FailLines(f, depth) ==
   IF depth > 0 THEN <<"{call lib.d1 data=\"all\" /}">>
   ELSE CASE f = "print" -> <<"{$x.y}">>
@@ -50,6 +60,8 @@ FailLines(f, depth) ==
          [] f = "letvalue" -> <<"{let $v: $x.y /}", "{$v}">>
          [] f = "switchsubject" -> <<"{switch $x.y}", "{case 1}a", "{/switch}">>
          [] OTHER -> <<"{msg desc=\"d\"}{plural $x.y}{case 1}a{default}b{/plural}{/msg}">>
+
+FailLinesD(dd) == IF dd.depth > 0 THEN CallLines(dd.shape) ELSE FailLines(dd.f, 0)
 
 \* the failing expression's own line inside FailLines (1-based)
 FailAt(f, depth) == IF depth = 0 /\ f = "paramvalue" THEN 2 ELSE 1
@@ -63,35 +75,41 @@ EntryLines(d) ==
       opens == [i \in 1..Len(ws) |-> Open(ws[i])]
       closes == [i \in 1..Len(ws) |-> Close(ws[Len(ws) + 1 - i])] IN
   <<"{namespace e}", "/** @param? x */", "{template .m}">> \o [i \in 1..d.lead |-> "lead"]
-  \o opens \o FailLines(d.f, d.depth) \o closes
+  \o opens \o FailLinesD(d) \o closes
   \o <<"tail", "{/template}", "/** @param? p */", "{template .ok}", "{$p ?: ''}", "{/template}">>
 
 FirstBodyLine(d) == 3 + d.lead + 1
 NWrap(d) == IF d.w1 = "none" THEN 0 ELSE IF d.w2 = "none" THEN 1 ELSE 2
 FailFirst(d) == FirstBodyLine(d) + NWrap(d)
-FailLast(d) == FailFirst(d) + Len(FailLines(d.f, d.depth)) - 1
+FailLast(d) == FailFirst(d) + Len(FailLinesD(d)) - 1
 \* lines on the path: from the outermost enclosing command's first line to
 \* the last line of its extent
 PathLines(d) == (FirstBodyLine(d))..(FailLast(d) + NWrap(d))
 NodeLine(d) == FailFirst(d) + FailAt(d.f, d.depth) - 1
+\* the lines the error may name: the first line of each command on the path
+\* (enclosing commands, then the failing command / the {call}) and, at depth
+\* 0, the line of the failing expression itself
+AllowedLines(d) == {FirstBodyLine(d) + i : i \in 0..(NWrap(d) - 1)} \cup {FailFirst(d), NodeLine(d)}
 
 \* library file: far more lines than the entry file, callee chain d1 -> d2 -> d3
 LibLines(d) ==
   <<"{namespace lib}">> \o Pad(40)
-  \o <<"/** @param? x */", "{template .d1}">> \o (IF d.depth = 1 THEN <<"{$x.y}">> ELSE <<"{call .d2 data=\"all\" /}">>) \o <<"{/template}">>
+  \o <<"/** @param? x", " * @param? p", " * @param? q */", "{template .d1}">>
+  \o (IF d.depth = 1 THEN <<"{$p ?: ''}{$q ?: ''}{$x.y}">> ELSE <<"{$p ?: ''}{$q ?: ''}{call .d2 data=\"all\" /}">>) \o <<"{/template}">>
   \o Pad(7)
   \o <<"/** @param? x */", "{template .d2}">> \o (IF d.depth = 2 THEN <<"{$x.y}">> ELSE <<"{call .d3 data=\"all\" /}">>) \o <<"{/template}">>
   \o Pad(7)
   \o <<"/** @param? x */", "{template .d3}", "{$x.y}", "{/template}">>
 
 \* line in lib.soy of the print that fails at the given depth
-LibFailLine(depth) == CASE depth = 1 -> 44 [] depth = 2 -> 55 [] OTHER -> 66
+LibFailLine(depth) == CASE depth = 1 -> 46 [] depth = 2 -> 57 [] OTHER -> 68
 
-Descs == {[w1 |-> a, w2 |-> b, f |-> f, depth |-> k, lead |-> n] :
-            a \in Wrappers, b \in Wrappers, f \in Fails, k \in Depths, n \in {0, 2}}
+Descs == {[w1 |-> a, w2 |-> b, f |-> f, depth |-> k, lead |-> n, shape |-> sh] :
+            a \in Wrappers, b \in Wrappers, f \in Fails, k \in Depths, n \in {0, 2}, sh \in CallShapes}
 Meaningful(d) == /\ (d.w1 = "none" => d.w2 = "none")
                  /\ (d.w1 = "msg" => d.w2 = "none")                      \* control flow is not allowed inside msg
                  /\ (d.depth > 0 => d.f = "print")
+                 /\ (d.depth = 0 => d.shape = "plain")
                  /\ ~(d.f = "pluralsubject" /\ "msg" \in {d.w1, d.w2})   \* no msg inside msg
                  /\ ~(d.f \in {"ifcond", "forlist", "switchsubject", "pluralsubject", "letvalue"} /\ "msg" \in {d.w1, d.w2})
 
@@ -109,7 +127,9 @@ Reach == /\ phase = "start" /\ phase' = "atnode"
 \* ... and, for depth > 0, descends into the callee(s): the bottom frame stays on the {call}
 Descend == /\ phase = "atnode" /\ d.depth > 0 /\ phase' = "incallee"
            /\ frameFile' = "lib.soy" /\ frameLine' = LibFailLine(d.depth)
-           /\ UNCHANGED <<d, bottomLine, reported>>
+           /\ bottomLine' = (IF "call_node_not_restored" \in Dev /\ d.shape # "plain"
+                             THEN FailFirst(d) + Len(CallLines(d.shape)) - 2 ELSE bottomLine)
+           /\ UNCHANGED <<d, reported>>
 
 Fail == /\ (phase = "atnode" /\ d.depth = 0) \/ phase = "incallee"
         /\ phase' = "failed"
@@ -123,12 +143,13 @@ Done == phase = "failed" /\ UNCHANGED <<d, phase, bottomLine, frameFile, frameLi
 
 Next == Reach \/ Descend \/ Fail \/ Done
 
-PositionOK == phase = "failed" => (reported.file = "entry.soy" /\ reported.line \in PathLines(d))
+PositionOK == phase = "failed" => (reported.file = "entry.soy" /\ reported.line \in AllowedLines(d))
 
 \* the library file is laid out so that a wrong line cannot pass by accident
 LayoutSeparates == LibFailLine(d.depth) \notin PathLines(d) /\ Len(EntryLines(d)) < 40
 
 EmitCase == phase = "failed" =>
   PrintT(ToJson([d |-> d, entry |-> EntryLines(d), lib |-> LibLines(d),
-                 file |-> "entry.soy", lo |-> FirstBodyLine(d), hi |-> FailLast(d) + NWrap(d), node |-> NodeLine(d)]))
+                 file |-> "entry.soy", lo |-> FirstBodyLine(d), hi |-> FailLast(d) + NWrap(d), node |-> NodeLine(d),
+                 allowed |-> SetToSeq(AllowedLines(d))]))
 =============================================================================
